@@ -902,3 +902,409 @@ pub fn transform_regimes<S: Dom>(t: &mut Tape, cx: &mut Cx) -> CaseResult {
     }
     Ok(())
 }
+
+// ------------------------------------------------------------------------------------------------------------
+// the whole normal range of the element type
+// ------------------------------------------------------------------------------------------------------------
+//
+// A translation, a scale factor, a shear or the sine / cosine of an angle is never squared by a builder: every
+// entry of `constructor * start` is a sum of at most N products of one constructor entry and one start entry.
+// So the builders must work wherever a *single* product of two entries stays finite, down to MIN_POSITIVE and
+// below (an underflowing product costs at most half a subnormal quantum), not only where squares stay normal.
+// Guards of the kind `v.magnitude_squared() == 0`, `dot == 0`, `is_approx_zero()` on a parameter break that.
+
+/// (smallest normal exponent, largest exponent, subnormal quantum) of the element type.
+fn range_of<S: Dom>() -> (i32, i32, f64) {
+    if is_f32::<S>() {
+        (-126, 127, f32::from_bits(1) as f64)
+    } else {
+        (-1022, 1023, f64::from_bits(1))
+    }
+}
+/// 2^e exactly, for a normal f64 exponent.
+fn p2(e: i32) -> f64 {
+    debug_assert!((-1022..=1023).contains(&e));
+    f64::from_bits(((e + 1023) as u64) << 52)
+}
+/// An exponent in lo..=hi, stratified: next to the lower limit, the lower half (squares underflow), moderate,
+/// the upper half (squares overflow), next to the upper limit, uniform.
+fn wide_exp(t: &mut Tape, lo: i32, hi: i32) -> i32 {
+    debug_assert!(lo <= hi);
+    let (l, h) = (lo as i64, hi as i64);
+    let e = match t.below(8) {
+        0 | 1 => l + t.int(0, 24),
+        2 | 3 => t.int(l, (l / 2).clamp(l, h)),
+        4 => t.int(-8, 8),
+        5 => t.int((h / 2).clamp(l, h), h),
+        6 => h - t.int(0, 24),
+        _ => t.int(l, h),
+    };
+    e.clamp(l, h) as i32
+}
+fn square_label<S: Dom>(cx: &mut Cx, e: i32) {
+    let (lo, hi, _) = range_of::<S>();
+    let mant = if is_f32::<S>() { 24 } else { 53 };
+    if 2 * e + 2 < lo - mant {
+        cx.label("parameter whose square underflows to 0");
+    } else if 2 * e < lo {
+        cx.label("parameter whose square is subnormal");
+    } else if 2 * e > hi {
+        cx.label("parameter whose square overflows");
+    } else {
+        cx.label("parameter whose square is normal");
+    }
+}
+/// +-(1 + u) * 2^e
+fn wide_value<S: Dom>(t: &mut Tape, e: i32) -> S {
+    let v = (1.0 + t.unit_f64()) * p2(e);
+    fc::<S>(if t.bool() { -v } else { v })
+}
+/// One coordinate of a translation / one shear: +-(1+u) 2^e, sometimes 0.
+fn wide_len<S: Dom>(t: &mut Tape, e: i32) -> S {
+    if t.chance(56) {
+        S::zero()
+    } else {
+        wide_value::<S>(t, e)
+    }
+}
+/// One scale factor: +-(1+u) 2^e, sometimes 1 or a small rational.
+fn wide_factor<S: Dom>(t: &mut Tape, e: i32) -> S {
+    match t.below(8) {
+        0 => S::one(),
+        1 => S::small(t, 5),
+        _ => wide_value::<S>(t, e),
+    }
+}
+/// An angle +-(1+u) 2^e with e from MIN_EXP up to 2 (sin and cos of it are taken in the element type by vek and
+/// by the oracle alike).
+fn wide_angle<S: Dom>(t: &mut Tape, cx: &mut Cx) -> S {
+    let (lo, _, _) = range_of::<S>();
+    let e = wide_exp(t, lo, 2);
+    square_label::<S>(cx, e);
+    wide_value::<S>(t, e)
+}
+
+/// k for the whole-range checks: <= N roundings in vek's row . column (N <= 4, each relative to the partial
+/// sum, or half a quantum when the partial result is subnormal), one rounding of sin / cos which is the same
+/// in the oracle, and <= N + 1 roundings of the f64 oracle when the element type is f64: <= 10 eps * sum of
+/// |terms| plus <= 5 quanta.
+const KW: f64 = 16.0;
+const QW: f64 = 16.0;
+
+fn wide_close<S: Dom>(cx: &mut Cx, got: S, want: f64, mag: f64) -> Result<(), String> {
+    let (_, _, q) = range_of::<S>();
+    let tol = KW * S::eps() * mag + QW * q;
+    cx.count();
+    if near_f64(cx, got.f(), want, tol) {
+        Ok(())
+    } else {
+        Err(format!("got {:e}, want {:e} (difference {:e}, tolerance {:e} = {} eps * {:e} + {} subnormal quanta)", got.f(), want, (got.f() - want).abs(), tol, KW, mag, QW))
+    }
+}
+/// C * A in f64 with the magnitude sums (for f32 every product is exact in f64; for f64 see KW).
+fn wide_product<S: Dom, const N: usize>(c: &[[S; N]; N], a: &[[S; N]; N]) -> ([[f64; N]; N], [[f64; N]; N]) {
+    let mut r = [[0.0f64; N]; N];
+    let mut g = [[0.0f64; N]; N];
+    for i in 0..N {
+        for j in 0..N {
+            for k in 0..N {
+                let p = c[i][k].f() * a[k][j].f();
+                r[i][j] += p;
+                g[i][j] += p.abs();
+            }
+        }
+    }
+    (r, g)
+}
+/// A start matrix whose entries are (small value) * 2^be; `row_e` moves the first N-1 rows to another exponent
+/// (so that a translation of that size matters next to the entries it is added to).
+fn wide_start<S: Dom, const N: usize>(m: &[[S; N]; N], be: i32, row_e: Option<i32>) -> [[S; N]; N] {
+    let mut r = *m;
+    for i in 0..N {
+        let e = if i < N - 1 { row_e.unwrap_or(be) } else { be };
+        let f = fc::<S>(p2(e));
+        for j in 0..N {
+            r[i][j] = r[i][j] * f;
+        }
+    }
+    r
+}
+
+/// One builder step with parameters and start-matrix entries anywhere in the normal range; both layouts.
+pub fn wide_steps<S: Dom>(t: &mut Tape, cx: &mut Cx) -> CaseResult {
+    let (lo, hi, _) = range_of::<S>();
+    let dim = t.pick(&[4usize, 4, 4, 3, 2]);
+    // parameter exponent: the whole normal range, leaving 10 binades for mantissas (< 2^4) and 4-term sums
+    let pe = wide_exp(t, lo, hi - 10);
+    // start-matrix exponent: so that every single product (and every start entry) stays finite
+    let top = hi - 10 - pe.max(0);
+    let be = match t.below(6) {
+        0 | 1 => 0.clamp(lo, top),
+        2 => (-pe).clamp(lo, top),
+        _ => wide_exp(t, lo, top),
+    };
+    let row_e = if t.chance(96) { Some((be + pe).clamp(lo, top)) } else { None };
+    let ident = t.chance(48);
+    macro_rules! run {
+        ($N:expr, $M:ident, $gen:expr, $step:expr, $cmat:ident, $apply:ident) => {{
+            let start: [[S; $N]; $N] = if ident { rf::identity() } else { wide_start(&$gen, be, row_e) };
+            let s: Step<S> = $step;
+            cx.label(step_name(&s));
+            let (c, _) = $cmat(&s);
+            let (want, mag) = wide_product(&c, &start);
+            cx.set_nontrivial(!is_noop(&s));
+            sample!(cx, "{} {} parameter exponent {} start exponent {} (rows {:?}) start={:?} step={:?}", S::NAME, stringify!($M), pe, be, row_e, start, s);
+            macro_rules! layout {
+                ($l:ident, $n:expr) => {{
+                    let v0 = $l::$M::<S>::from_arr(&start);
+                    let mut w = v0;
+                    let v = $apply!(v0, w, s);
+                    let got = v.to_arr();
+                    for i in 0..$N {
+                        for j in 0..$N {
+                            req!(wide_close::<S>(cx, got[i][j], want[i][j], mag[i][j]), "{} {} {} over the whole normal range: element ({},{}) of the result vs definition-matrix * start\n got  {:?}\n want {:?}", $n, stringify!($M), step_name(&s), i, j, got, want);
+                        }
+                    }
+                    check_eq!(cx, w.to_arr(), got, "{} {} in-place twin of {} (whole normal range)", $n, stringify!($M), step_name(&s));
+                }};
+            }
+            layout!(rm, "row-major");
+            layout!(cm, "col-major");
+        }};
+    }
+    macro_rules! apply4 {
+        ($v:ident, $w:ident, $s:ident) => {
+            match $s {
+                Step::Translate2(a) => { $w.translate_2d(vk::v2(&a)); $v.translated_2d(vk::v2(&a)) }
+                Step::Translate3(a) => { $w.translate_3d(vk::v3(&a)); $v.translated_3d(vk::v3(&a)) }
+                Step::Scale3(a) => { $w.scale_3d(vk::v3(&a)); $v.scaled_3d(vk::v3(&a)) }
+                Step::RotX(a) => { $w.rotate_x(a); $v.rotated_x(a) }
+                Step::RotY(a) => { $w.rotate_y(a); $v.rotated_y(a) }
+                Step::RotZ(a) => { $w.rotate_z(a); $v.rotated_z(a) }
+                _ => unreachable!(),
+            }
+        };
+    }
+    macro_rules! apply3 {
+        ($v:ident, $w:ident, $s:ident) => {
+            match $s {
+                Step::Translate2(a) => { $w.translate_2d(vk::v2(&a)); $v.translated_2d(vk::v2(&a)) }
+                Step::Scale3(a) => { $w.scale_3d(vk::v3(&a)); $v.scaled_3d(vk::v3(&a)) }
+                Step::RotX(a) => { $w.rotate_x(a); $v.rotated_x(a) }
+                Step::RotY(a) => { $w.rotate_y(a); $v.rotated_y(a) }
+                Step::RotZ(a) => { $w.rotate_z(a); $v.rotated_z(a) }
+                _ => unreachable!(),
+            }
+        };
+    }
+    macro_rules! apply2 {
+        ($v:ident, $w:ident, $s:ident) => {
+            match $s {
+                Step::RotZ(a) => { $w.rotate_z(a); $v.rotated_z(a) }
+                Step::Scale2(a) => { $w.scale_2d(vk::v2(&a)); $v.scaled_2d(vk::v2(&a)) }
+                Step::ShearX(a) => { $w.shear_x(a); $v.sheared_x(a) }
+                Step::ShearY(a) => { $w.shear_y(a); $v.sheared_y(a) }
+                _ => unreachable!(),
+            }
+        };
+    }
+    let param = |cx: &mut Cx| square_label::<S>(cx, pe);
+    match dim {
+        4 => run!(4, Mat4, gen_m4::<S>(t, cx), match t.below(8) {
+            0 | 1 | 2 => { param(cx); Step::Translate3([wide_len(t, pe), wide_len(t, pe), wide_len(t, pe)]) }
+            3 => { param(cx); Step::Translate2([wide_len(t, pe), wide_len(t, pe)]) }
+            4 => { param(cx); Step::Scale3([wide_factor(t, pe), wide_factor(t, pe), wide_factor(t, pe)]) }
+            5 => Step::RotX(wide_angle(t, cx)),
+            6 => Step::RotY(wide_angle(t, cx)),
+            _ => Step::RotZ(wide_angle(t, cx)),
+        }, cmat4, apply4),
+        3 => run!(3, Mat3, gen_m3::<S>(t, cx), match t.below(6) {
+            0 | 1 => { param(cx); Step::Translate2([wide_len(t, pe), wide_len(t, pe)]) }
+            2 => { param(cx); Step::Scale3([wide_factor(t, pe), wide_factor(t, pe), wide_factor(t, pe)]) }
+            3 => Step::RotX(wide_angle(t, cx)),
+            4 => Step::RotY(wide_angle(t, cx)),
+            _ => Step::RotZ(wide_angle(t, cx)),
+        }, cmat3, apply3),
+        _ => run!(2, Mat2, vk::gen_mat::<S, 2>(t, 5), match t.below(4) {
+            0 => Step::RotZ(wide_angle(t, cx)),
+            1 => { param(cx); Step::Scale2([wide_factor(t, pe), wide_factor(t, pe)]) }
+            2 => { param(cx); Step::ShearX(wide_len(t, pe)) }
+            _ => { param(cx); Step::ShearY(wide_len(t, pe)) }
+        }, cmat2, apply2),
+    }
+    Ok(())
+}
+
+/// Point / direction helpers with matrix entries and coordinates anywhere in the normal range.
+pub fn wide_helpers<S: Dom>(t: &mut Tape, cx: &mut Cx) -> CaseResult {
+    let (lo, hi, _) = range_of::<S>();
+    let pe = wide_exp(t, lo, hi - 10);
+    square_label::<S>(cx, pe);
+    let top = hi - 10 - pe.max(0);
+    let be = match t.below(4) {
+        0 => 0.clamp(lo, top),
+        1 => (-pe).clamp(lo, top),
+        _ => wide_exp(t, lo, top),
+    };
+    // the last column multiplies the 1 of a point, so it may live at the exponent of the products
+    let col_e = if t.bool() { Some((be + pe).clamp(lo, top)) } else { None };
+    let (z, o) = (S::zero(), S::one());
+    let mut m: [[S; 4]; 4] = wide_start(&gen_m4::<S>(t, cx), be, None);
+    let mut m3: [[S; 3]; 3] = wide_start(&gen_m3::<S>(t, cx), be, None);
+    if let Some(ce) = col_e {
+        let f = fc::<S>(p2(ce - be));
+        for i in 0..4 {
+            m[i][3] = m[i][3] * f;
+        }
+        for i in 0..3 {
+            m3[i][2] = m3[i][2] * f;
+        }
+    }
+    let p: [S; 3] = [wide_len(t, pe), wide_len(t, pe), wide_len(t, pe)];
+    cx.set_nontrivial(p.iter().filter(|x| !x.is_zero()).count() >= 2);
+    sample!(cx, "{} coordinate exponent {} matrix exponent {} (last column {:?}) M4={:?} M3={:?} p={:?}", S::NAME, pe, be, col_e, m, m3, p);
+    fn rows<S: Dom, const N: usize>(m: &[[S; N]; N], v: &[S; N]) -> ([f64; N], [f64; N]) {
+        let mut r = [0.0f64; N];
+        let mut g = [0.0f64; N];
+        for i in 0..N {
+            for j in 0..N {
+                let p = m[i][j].f() * v[j].f();
+                r[i] += p;
+                g[i] += p.abs();
+            }
+        }
+        (r, g)
+    }
+    let (wp, gp) = rows(&m, &[p[0], p[1], p[2], o]);
+    let (wd, gd) = rows(&m, &[p[0], p[1], p[2], z]);
+    let (xp, hp) = rows(&m3, &[p[0], p[1], o]);
+    let (xd, hd) = rows(&m3, &[p[0], p[1], z]);
+    macro_rules! layout {
+        ($l:ident, $n:expr) => {{
+            let mm = $l::Mat4::<S>::from_arr(&m);
+            let r3: Vec3<S> = mm.mul_point(vk::v3(&p));
+            let r4: Vec4<S> = mm.mul_point(Vec4 { x: p[0], y: p[1], z: p[2], w: z });
+            let d3: Vec3<S> = mm.mul_direction(vk::v3(&p));
+            let d4: Vec4<S> = mm.mul_direction(Vec4 { x: p[0], y: p[1], z: p[2], w: o });
+            for i in 0..4 {
+                req!(wide_close::<S>(cx, vk::a4(&r4)[i], wp[i], gp[i]), "{} Mat4::mul_point::<Vec4> over the whole normal range, row {}", $n, i);
+                req!(wide_close::<S>(cx, vk::a4(&d4)[i], wd[i], gd[i]), "{} Mat4::mul_direction::<Vec4> over the whole normal range, row {}", $n, i);
+            }
+            for i in 0..3 {
+                req!(wide_close::<S>(cx, vk::a3(&r3)[i], wp[i], gp[i]), "{} Mat4::mul_point::<Vec3> over the whole normal range, row {}", $n, i);
+                req!(wide_close::<S>(cx, vk::a3(&d3)[i], wd[i], gd[i]), "{} Mat4::mul_direction::<Vec3> over the whole normal range, row {}", $n, i);
+            }
+            let n3 = $l::Mat3::<S>::from_arr(&m3);
+            let q3: Vec3<S> = n3.mul_point_2d(Vec3 { x: p[0], y: p[1], z });
+            let e3: Vec3<S> = n3.mul_direction_2d(Vec3 { x: p[0], y: p[1], z: o });
+            let q2: Vec2<S> = n3.mul_point_2d(Vec2 { x: p[0], y: p[1] });
+            let e2: Vec2<S> = n3.mul_direction_2d(Vec2 { x: p[0], y: p[1] });
+            for i in 0..3 {
+                req!(wide_close::<S>(cx, vk::a3(&q3)[i], xp[i], hp[i]), "{} Mat3::mul_point_2d::<Vec3> over the whole normal range, row {}", $n, i);
+                req!(wide_close::<S>(cx, vk::a3(&e3)[i], xd[i], hd[i]), "{} Mat3::mul_direction_2d::<Vec3> over the whole normal range, row {}", $n, i);
+            }
+            for i in 0..2 {
+                req!(wide_close::<S>(cx, vk::a2(&q2)[i], xp[i], hp[i]), "{} Mat3::mul_point_2d::<Vec2> over the whole normal range, row {}", $n, i);
+                req!(wide_close::<S>(cx, vk::a2(&e2)[i], xd[i], hd[i]), "{} Mat3::mul_direction_2d::<Vec2> over the whole normal range, row {}", $n, i);
+            }
+        }};
+    }
+    layout!(rm, "row-major");
+    layout!(cm, "col-major");
+    Ok(())
+}
+
+/// A unit quaternion (to rounding) from the angle regimes; returns (w, x, y, z) and the angle.
+fn reg_orientation<S: Dom>(t: &mut Tape, cx: &mut Cx) -> ([S; 4], f64) {
+    let (a, l) = angle_regime(t, pert_exp::<S>(), 8);
+    cx.label(l);
+    let ax: [f64; 3] = match t.below(4) {
+        0 => {
+            let mut e = [0.0; 3];
+            e[t.below(3)] = 1.0;
+            e
+        }
+        1 | 2 => {
+            let (v, len) = gens::pythagorean3(t);
+            [v[0] as f64 / len as f64, v[1] as f64 / len as f64, v[2] as f64 / len as f64]
+        }
+        _ => {
+            let v = [t.range_f64(-1.0, 1.0), t.range_f64(-1.0, 1.0), t.range_f64(-1.0, 1.0)];
+            let n = (v[0] * v[0] + v[1] * v[1] + v[2] * v[2]).sqrt();
+            if n < 0.1 {
+                [1.0, 0.0, 0.0]
+            } else {
+                [v[0] / n, v[1] / n, v[2] / n]
+            }
+        }
+    };
+    let (sn, cs) = ((a / 2.0).sin(), (a / 2.0).cos());
+    let sg = if t.chance(64) { -1.0 } else { 1.0 };
+    ([fc::<S>(sg * cs), fc::<S>(sg * sn * ax[0]), fc::<S>(sg * sn * ax[1]), fc::<S>(sg * sn * ax[2])], a)
+}
+
+/// `Mat4::from(Transform)` entry by entry, with position coordinates and scale factors anywhere in the normal
+/// range (each with its own exponent): the linear part is R(q) * diag(scale) (one product per entry, R known to
+/// a few eps absolutely), the last column is the position itself, the bottom row is (0,0,0,1).
+pub fn wide_transform<S: Dom>(t: &mut Tape, cx: &mut Cx) -> CaseResult {
+    let (lo, hi, q) = range_of::<S>();
+    let (z, o) = (S::zero(), S::one());
+    let (qs, angle): ([S; 4], f64) = if t.chance(32) {
+        cx.label("identity orientation");
+        ([o, z, z, z], 0.0)
+    } else {
+        reg_orientation::<S>(t, cx)
+    };
+    let pe = wide_exp(t, lo, hi - 4);
+    square_label::<S>(cx, pe);
+    let position: [S; 3] = if t.chance(160) {
+        [wide_len(t, pe), wide_len(t, pe), wide_len(t, pe)]
+    } else {
+        {
+            let own = |t: &mut Tape| {
+                let e = wide_exp(t, lo, hi - 4);
+                wide_len::<S>(t, e)
+            };
+            [own(t), own(t), own(t)]
+        }
+    };
+    let se = wide_exp(t, lo, hi - 4);
+    let scale: [S; 3] = if t.chance(160) {
+        [wide_factor(t, se), wide_factor(t, se), wide_factor(t, se)]
+    } else {
+        {
+            let own = |t: &mut Tape| {
+                let e = wide_exp(t, lo, hi - 4);
+                wide_factor::<S>(t, e)
+            };
+            [own(t), own(t), own(t)]
+        }
+    };
+    cx.set_nontrivial(position.iter().any(|x| !x.is_zero()) && angle != 0.0);
+    sample!(cx, "{} angle={:e} orientation(w,x,y,z)={:?} scale={:?} position={:?}", S::NAME, angle, qs, scale, position);
+    let f = [qs[0].f(), qs[1].f(), qs[2].f(), qs[3].f()];
+    // columns of R(q): images of the basis vectors under the quaternion action
+    let cols = [rotate64(f, [1.0, 0.0, 0.0]), rotate64(f, [0.0, 1.0, 0.0]), rotate64(f, [0.0, 0.0, 1.0])];
+    let xf = Transform { position: vk::v3(&position), orientation: Quaternion { w: qs[0], x: qs[1], y: qs[2], z: qs[3] }, scale: vk::v3(&scale) };
+    for (name, m) in [("row-major", rm::Mat4::<S>::from(xf).to_arr()), ("col-major", cm::Mat4::<S>::from(xf).to_arr())] {
+        check_eq!(cx, m[3], [z, z, z, o], "{} Mat4::from(Transform) is affine (whole normal range)", name);
+        for i in 0..3 {
+            // the image of the origin is the position: 0 + position_i * 1, one rounding at most
+            cx.count();
+            if !near_f64(cx, m[i][3].f(), position[i].f(), S::eps() * position[i].f().abs() + q) {
+                fail!("{} Mat4::from(Transform): translation entry {} is {:e}, want position = {:e} (orientation angle {:e}, scale {:?})\n matrix {:?}", name, i, m[i][3].f(), position[i].f(), angle, scale, m);
+            }
+            for j in 0..3 {
+                // |R_ij| <= 1 is known to a few eps absolutely (terms <= 1), times one factor
+                let s = scale[j].f();
+                let want = cols[j][i] * s;
+                let tol = KT * S::eps() * s.abs() + QW * q;
+                cx.count();
+                if !near_f64(cx, m[i][j].f(), want, tol) {
+                    fail!("{} Mat4::from(Transform): linear entry ({},{}) is {:e}, want R(orientation)_ij * scale_j = {:e} (difference {:e}, tolerance {:e})\n position {:?} scale {:?} matrix {:?}", name, i, j, m[i][j].f(), want, (m[i][j].f() - want).abs(), tol, position, scale, m);
+                }
+            }
+        }
+    }
+    Ok(())
+}
